@@ -1,14 +1,30 @@
 #!/bin/bash
-# refactor_test.sh: apply each behaviour-preserving refactoring of /tmp/mut_refactor_out/<k>/patch.diff to the scratch worktree and run every
-# quick check against it; any VIOLATION is a false alarm (or reveals that the refactoring is not behaviour preserving).
-WT=/tmp/mut_refactor
-for k in $(ls /tmp/mut_refactor_out | sort -n); do
-  git -C $WT checkout -q -- . ; git -C $WT clean -fdq; git -C $WT checkout -q --detach main
-  git -C $WT apply /tmp/mut_refactor_out/$k/patch.diff || { echo "refactor $k: patch does not apply"; continue; }
-  for i in 01 02 03 04 05 06 07 08 09 10 11 12 13 14 15 16 17 18 19 20; do
-    out=$(cd /verif && VERIF_REPO=$WT timeout 1800 ./check C$i 2>&1 | grep -v "^KNOWN" | tail -2)
-    case "$out" in *"exit=0"*) ;; *) echo "refactor $k C$i: $(echo "$out" | tr '\n' ' ' | cut -c1-300)";; esac
-  done
-  echo "refactor $k done"
-done
-git -C $WT checkout -q -- .
+# refactor_test.sh [outdir] [parallel]: apply each behaviour-preserving refactoring <outdir>/<k>/patch.diff (default /tmp/mut_refactor_out) to its
+# own scratch worktree /tmp/mut_refactor_w<k> and run every quick check against it; any VIOLATION is a false alarm (or reveals that the
+# refactoring is not behaviour preserving). Worktrees and private build copies are removed afterwards. Results: /var/tmp/refactor_results/<name>.txt
+OUT=${1:-/tmp/mut_refactor_out}
+PAR=${2:-3}
+NAME=$(basename $OUT)
+mkdir -p /var/tmp/refactor_results
+RES=/var/tmp/refactor_results/$NAME.txt
+: > $RES
+one() {
+  k=$1; OUT=$2; RES=$3
+  WT=/tmp/mut_refactor_w$k
+  git -C /repo worktree remove --force $WT 2>/dev/null; rm -rf $WT
+  git -C /repo worktree add -q --detach $WT main || { echo "refactor $k: no worktree" >> $RES; return; }
+  if ! git -C $WT apply $OUT/$k/patch.diff; then echo "refactor $k: patch does not apply" >> $RES
+  else
+    for i in 01 02 03 04 05 06 07 08 09 10 11 12 13 14 15 16 17 18 19 20; do
+      out=$(cd /verif && VERIF_REPO=$WT timeout 1800 ./check C$i 2>&1 | grep -v "^KNOWN" | grep -v "^WARNING" | tail -2)
+      case "$out" in *"exit=0"*) ;; *) echo "refactor $k C$i: $(echo "$out" | tr '\n' ' ' | cut -c1-300)" >> $RES;; esac
+    done
+    echo "refactor $k done" >> $RES
+  fi
+  H=$(python3 -c "import hashlib,os;print(hashlib.sha1(os.path.realpath('$WT').encode()).hexdigest()[:10])")
+  rm -rf /var/tmp/verif_alt_$H
+  git -C /repo worktree remove --force $WT
+}
+export -f one
+ls $OUT | grep -E '^[0-9]+$' | sort -n | xargs -P $PAR -I{} bash -c "one {} $OUT $RES"
+sort -V $RES
